@@ -18,13 +18,15 @@ MODULE = "checks.c06"
 MS, ME, MD = 0.0, 3.0, 1.0
 SCEN = {"A": "sm1", "B": "sm1", "C": "sm2", "D": "sm1"}
 OPS = ["run", "sess_const", "step_const", "sess_points", "step_points", "reset", "open_step", "register_late",
-       "multi_const", "multi_points"]
+       "multi_const", "multi_points", "rest_dt", "rest_start", "rest_points"]
 
 
 def histories(tier):
-    alphabet = [(o, x) for o in OPS if o != "register_late" and not o.startswith("multi") for x in ("A", "B", "C")] + [("register_late", "E")]
+    alphabet = [(o, x) for o in OPS if o != "register_late" and not o.startswith(("multi", "rest_")) for x in ("A", "B", "C")] + [("register_late", "E")]
     # one session over ALL scenarios of the manager, step settings addressed to one of them: the others' step results
     alphabet += [(o, x) for o in ("multi_const", "multi_points") for x in ("A", "B", "D")]
+    # the REST /run endpoint of a server built on this bptk object: settings without constants (run specs, points)
+    alphabet += [(o, x) for o in ("rest_dt", "rest_start", "rest_points") for x in ("A", "B")]
     out = [[a] for a in alphabet]
     out += [[a, b] for a in alphabet for b in alphabet]
     if tier == "thorough":
@@ -59,6 +61,8 @@ class World(object):
         self.managers = dict(SCEN)
         self.open = None
         self.in_session = {}         # results other scenarios reported inside a multi-scenario session: {who: (got, want)}
+        self.specs = {}              # scenario -> (start, stop, dt) where a REST request changed them
+        self.client = None
 
     def const(self, name):
         if self.mode == "sym":
@@ -116,6 +120,24 @@ class World(object):
                 self.open = None
             else:
                 self.open = x
+        elif op in ("rest_dt", "rest_start", "rest_points"):
+            if self.client is None:
+                from BPTK_Py.server import BptkServer
+                self.client = BptkServer(__name__, lambda: self.b).test_client()
+            st0, en0, dt0 = self.specs.get(x, (MS, ME, MD))
+            if op == "rest_dt":
+                st = {"runspecs": {"dt": 0.5}}
+                self.specs[x] = (st0, en0, 0.5)
+            elif op == "rest_start":
+                st = {"runspecs": {"starttime": 1.0}}
+                self.specs[x] = (1.0, en0, dt0)
+            else:
+                v = self.points(tag)
+                st = {"points": {"pts": v}}
+                self.settings[x][1]["pts"] = v
+            import json as _json
+            self.client.post("/run", data=_json.dumps({"scenario_managers": [mgr], "scenarios": [x], "equations": scen.EQS,
+                                                               "settings": {mgr: {x: st}}}), content_type="application/json")
         elif op in ("multi_const", "multi_points"):
             names = [y for y, m in self.managers.items() if m == mgr]
             b.begin_session(scenarios=names, scenario_managers=[mgr], equations=scen.EQS, starttime=MS, dt=MD)
@@ -127,8 +149,8 @@ class World(object):
             b.end_session()
             self.open = None
             for y in names:
-                if y == x:
-                    continue
+                if y == x or any(z in self.specs for z in names):
+                    continue                 # (a session has ONE clock: with REST-changed run specs in the manager its grid is the session's, not the scenario's - batch observations only)
                 got = scen.merge_steps([scen.from_step(r, mgr, y) for r in steps])
                 cs, ps = self.settings[y]
                 want = scen.fresh_results(MS, ME, MD, cs, ps)
@@ -156,7 +178,7 @@ class World(object):
             if x == self.open:
                 continue
             cs, ps = self.settings[x]
-            out[x] = scen.fresh_results(MS, ME, MD, cs, ps)
+            out[x] = scen.fresh_results(*(self.specs.get(x, (MS, ME, MD)) + (cs, ps)))
         out["base"] = scen.fresh_results(MS, ME, MD, {}, {})
         for who, (got, want) in self.in_session.items():
             out[who] = want
@@ -319,6 +341,7 @@ def run(tier):
     _G["timeout"] = 20 if tier == "quick" else 60
     stubs = harness.Stubs()
     harness.install_sd_stubs(stubs)
+    scen.install_json_hooks(stubs)
     hs = histories(tier)
     counts = {"holds": 0, "violated": 0, "unknown": 0}
     samples, bad = [], []
